@@ -1153,6 +1153,11 @@ FILES_TIMELOCK = [
 ]
 READS_TIMELOCK = {"Timelock": {"get_operation_ledger": "u32", "ledger_sequence": "u32"}}
 
+FILES_FEE = [
+    ("Fee", "packages/fee-abstraction/src/storage.rs", ["validate_fee_bounds", "validate_expiration_ledger"]),
+]
+READS_FEE = {"Fee": {"ledger_sequence": "u32"}}
+
 FILES_WEBAUTHN = [
     ("WebAuthn", "packages/accounts/src/verifiers/webauthn.rs",
      ["validate_user_present_bit_set", "validate_user_verified_bit_set", "validate_backup_eligibility_and_state"]),
@@ -1563,7 +1568,9 @@ def main():
                 sys.stdout.write(txt)
         sys.exit(rc)
     try:
-        if "--timelock" in sys.argv:
+        if "--fee" in sys.argv:
+            txt = translate(repo, FILES_FEE, reads=READS_FEE)
+        elif "--timelock" in sys.argv:
             txt = translate(repo, FILES_TIMELOCK, reads=READS_TIMELOCK)
         elif "--vault" in sys.argv:
             txt = translate(repo, FILES_VAULT, DEPS=FILES, imports=("OZ.Gen.Math",), reads=READS_VAULT)
